@@ -667,8 +667,8 @@ Proof.
   intros Hadd. destruct b as [c|c msg o|c|fault|dt fault]; unfold step_b.
   - destruct (has_conn c s); [apply Cx_EvI_refl|].
     unfold run_m, on_open, send. cbn [fst].
-    apply (Cx_nochan EvI _ _ [LFrame c FWelcome
-             (is_clean (set_conns s (conns s ++ [(c, new_conn)])))]);
+    apply (Cx_nochan EvI _ _ [LFrame c (FWelcome (welcome cfg))
+             (is_clean (set_conns s (conns s ++ [(c, new_conn)]))) (now (set_conns s (conns s ++ [(c, new_conn)])))]);
       [exact EvI_refl|reflexivity|reflexivity|].
     intros d [H|[]]. discriminate.
   - unfold has_conn. destruct (lookup_conn c (conns s)) as [cs|] eqn:Hl; [|apply Cx_EvI_refl].
@@ -679,8 +679,8 @@ Proof.
           pose proof (add_nothing_erroneous s c cs msg o Hl Ht Hadd) as Herr.
           assert (Hc : conn_of s c = cs) by (unfold conn_of; rewrite Hl; reflexivity).
           unfold wp. rewrite erroneous_harmless by (rewrite Hc; exact Herr). rewrite Ht.
-          apply (Cx_nochan EvI _ _ [LFrame c (FError ErrOther) (is_clean s);
-                                    LFrame c (FAck (m_id msg)) (is_clean s)]);
+          apply (Cx_nochan EvI _ _ [LFrame c (FError ErrOther msg) (is_clean s) (now s);
+                                    LFrame c (FAck (m_id msg)) (is_clean s) (now s)]);
             [exact EvI_refl|reflexivity|reflexivity|].
           intros d [H|[H|[]]]; discriminate.
         + apply CxM_on_message. rewrite Ht. intros H. inversion H. subst t. discriminate.
@@ -850,16 +850,16 @@ Lemma add_step_b s c cs a side msg o m ph bd :
   let d1 := upd_touch (ins_msg (chan_w s) r) m (now s) in
   exists s1 fr,
     step_b cfg s (ECmd c msg o) = (s1, true, None) /\ chan_c s1 = d1 /\ now s1 = now s /\
-    rev (log s1) = LFrame c (FAck (m_id msg)) (is_clean s) :: LCommitChan d1 :: fr /\
+    rev (log s1) = LFrame c (FAck (m_id msg)) (is_clean s) (now s) :: LCommitChan d1 :: fr /\
     (forall e, In e fr -> is_commit e = false).
 Proof.
   intros Hlog Hc Hb Hmb Ht Hph Hbd r d1.
-  set (s0 := set_log s (LFrame c (FAck (m_id msg)) (is_clean s) :: log s)).
+  set (s0 := set_log s (LFrame c (FAck (m_id msg)) (is_clean s) (now s) :: log s)).
   assert (Hc0 : conn_of s0 c = cs).
   { unfold conn_of, s0; cbn. rewrite Hc. reflexivity. }
   set (s2 := mkState d1 d1 (usage_w s) (usage_c s) (subs s) (conns s) (now s) (boot s)
                      (timer_start s) (next_due s) (LCommitChan d1 :: log s0)).
-  set (fr0 := map (fun c' => LFrame c' (msg_frame r) (is_clean s2)) (subs_of a m (subs s))).
+  set (fr0 := map (fun c' => LFrame c' (msg_frame r) (is_clean s2) (now s2)) (subs_of a m (subs s))).
   assert (Hom : on_message cfg c msg o s = Ok tt (set_log s2 (rev fr0 ++ log s2))).
   { apply (on_message_dispatch_ok cfg c msg o s TAdd _ Ht). fold s0.
     rewrite (dispatch_bound cfg c TAdd msg o s0 a side)
@@ -892,7 +892,7 @@ Proof.
   destruct (add_step_b s c cs a side msg o m ph bd Hlog Hc Hb Hmb Ht Hph Hbd)
     as (s1 & fr & Est & Hcc & Hnow & Hrev & Hfr). cbv zeta in Hcc, Hrev. fold r in Hcc, Hrev.
   unfold crash_chan. rewrite Est. cbn [fst]. split; [|exact Hnow]. rewrite Hrev.
-  assert (Hcnt : count_commits (LFrame c (FAck (m_id msg)) (is_clean s) ::
+  assert (Hcnt : count_commits (LFrame c (FAck (m_id msg)) (is_clean s) (now s) ::
                                 LCommitChan (upd_touch (ins_msg (chan_w s) r) m (now s)) :: fr) = 1%nat).
   { unfold count_commits. cbn [filter is_commit]. rewrite (filter_commit_nil fr Hfr). reflexivity. }
   rewrite Hcnt. cbn [negb orb]. rewrite orb_false_r.
